@@ -150,7 +150,7 @@ pub struct RecWordRead<W: HWord> {
 impl<W: HWord> RecWordRead<W> {
     pub fn new(image: &[u8], zext: bool) -> (Self, SharedReadLog) {
         assert!(image.len() % W::NBYTES == 0);
-        let log = Rc::new(RefCell::new(ReadLog { budget: u64::MAX, ..Default::default() }));
+        let log = Rc::new(RefCell::new(ReadLog { budget: 200_000, ..Default::default() }));
         (
             Self {
                 data: Rc::new(image.to_vec()),
